@@ -116,6 +116,12 @@ def _update(h, g):
     old = zone_record(h, g, "old_")
     new = zone_record(h, g, "new_")
     w, sock, subs, zone = make_zone(h, g, old)
+    seen = {}
+    if h.symbolic:
+        def at_notification(e):
+            if e[0] in ("suspend", "for-all-members") and not seen:
+                seen["stored"] = h.attr(zone, G["rec_attr"])
+        w.site_checks.append(at_notification)
     r = h.method(zone, G["update"], new)
     same_id = h.branch(h.eq(h.attr(new, G["number"]), h.attr(old, G["number"])))
     if not same_id:
@@ -126,6 +132,9 @@ def _update(h, g):
     h.oblige("the latest record is stored", h.attr(zone, G["rec_attr"]) is new)
     changed = h.branch(Not(h.eq(old, new)))
     if changed:
+        if h.symbolic:
+            h.oblige("the new record is in place before subscribers run (a subscriber reading the zone sees the new values)",
+                     seen.get("stored") is new)
         h.oblige("a changed record notifies every zone subscriber once with the zone id",
                  notified_only(h, w, subs, [h.attr(new, G["number"])]))
         h.cover("changed")
